@@ -172,8 +172,14 @@ def gen_history(rng, kind, H, n_ops):
                 ops.append(["visible", rng.randrange(ntasks), rng.random() < 0.5])
             elif rr < 0.85:
                 ops.append(["remove_task", rng.randrange(ntasks)])
-            else:
+            elif rr < 0.93:
                 ops.append(["update_refresh", rng.randrange(ntasks), rng.choice([1, 10])])
+            else:
+                # the other task changes a program makes: a new description (the frame's width changes), a new total,
+                # reset, stop / start of one task - with or without an immediate refresh
+                what = rng.choice([["description", rng.choice(["d", "a much longer description " + "z" * rng.randint(0, 25), ""])],
+                                   ["total", rng.choice([0, 1, 50, 1000])], ["reset"], ["stop_task"], ["start_task"]])
+                ops.append(["task_change", rng.randrange(ntasks), what, rng.random() < 0.5])
     return ops
 
 
@@ -396,7 +402,7 @@ class Session:
             self.obj.add_task(op[1], total=op[2], visible=op[3])
             if self.live_on():
                 self._drew()
-        elif k in ("advance", "visible", "remove_task", "update_refresh"):
+        elif k in ("advance", "visible", "remove_task", "update_refresh", "task_change"):
             tid = op[1]
             if tid in self.removed or tid not in self.obj._tasks:
                 return
@@ -408,6 +414,23 @@ class Session:
             elif k == "remove_task":
                 self.obj.remove_task(tid)
                 self.removed.add(tid)
+            elif k == "task_change":
+                what = op[2]
+                self.clock.t += 0.25
+                if what[0] == "description":
+                    self.obj.update(tid, description=what[1], refresh=op[3])
+                elif what[0] == "total":
+                    self.obj.update(tid, total=what[1], refresh=op[3])
+                elif what[0] == "reset":
+                    self.obj.reset(tid)
+                    if op[3]:
+                        self.obj.refresh()
+                elif what[0] == "stop_task":
+                    self.obj.stop_task(tid)
+                else:
+                    self.obj.start_task(tid)
+                if self.live_on() and (op[3] and what[0] in ("description", "total", "reset") or what[0] == "reset"):
+                    self._drew()
             else:
                 self.clock.t += 0.5
                 self.obj.update(tid, advance=op[2], refresh=True)
@@ -587,7 +610,7 @@ def wl_faults(ctx, rng, case_no):
     if kind == "progress" and rng.random() < 0.6:
         pre_ops = [["add_task", "pre%d" % i, 10, True] for i in range(rng.randint(1, 2))]
         # task ids used by later ops refer to tasks added inside the block: shift them
-        ops = [o for o in ops if o[0] not in ("advance", "visible", "remove_task", "update_refresh")]
+        ops = [o for o in ops if o[0] not in ("advance", "visible", "remove_task", "update_refresh", "task_change")]
     base = run_with_fault(ctx, kind, cfg, ops, pre_ops=pre_ops)
     R, B = base["renders"], len(ops)
     if base["raised"]:
